@@ -268,6 +268,13 @@ impl From<DynamicTable> for Decoder {
     }
 }
 
+#[cfg(all(h3_verif, not(test)))]
+impl From<DynamicTable> for Decoder {
+    fn from(table: DynamicTable) -> Self {
+        Self { table }
+    }
+}
+
 #[derive(PartialEq)]
 enum Instruction {
     Insert(HeaderField),
